@@ -76,6 +76,10 @@ func (s *Server) getLogs(w http.ResponseWriter, r *http.Request) {
 
 // RegisterHandlers registers HTTP handlers for witness endpoints.
 func (s *Server) RegisterHandlers(r *mux.Router) {
+	// Match the request path as sent. By default the router first "cleans" it and answers 301 with a rewritten
+	// location, so a request naming an odd log ID such as "./<id>" or "x/../<id>" would be redirected to (and the
+	// bundled client would then return) the checkpoint of the log <id> instead of getting 404.
+	r.SkipClean(true)
 	logStr := "{logid:[a-zA-Z0-9-]+}"
 	r.HandleFunc(fmt.Sprintf(api.HTTPGetCheckpoint, logStr), s.getCheckpoint).Methods(http.MethodGet)
 	r.HandleFunc(api.HTTPGetLogs, s.getLogs).Methods(http.MethodGet)
